@@ -388,6 +388,18 @@ def extract(relpath, qualname, rewrite_comps=True, keep_decorators=(), cuts=None
     mod = ast.Module(body=[fn], type_ignores=[])
     ast.fix_missing_locations(mod)
     ex = Extracted()
+    names = set()
+    for n_ in tree.body:
+        if isinstance(n_, (ast.Import, ast.ImportFrom)):
+            for a_ in n_.names:
+                names.add((a_.asname or a_.name).split(".")[0])
+        elif isinstance(n_, (ast.FunctionDef, ast.ClassDef)):
+            names.add(n_.name)
+        elif isinstance(n_, ast.Assign):
+            for t_ in n_.targets:
+                if isinstance(t_, ast.Name):
+                    names.add(t_.id)
+    ex.module_names = names
     ex.name = fn.name
     ex.qualname = qualname
     ex.relpath = relpath
